@@ -224,12 +224,20 @@ def main(argv):
         slot_q.put(i)
     t0 = time.time()
     results = []
+    # harnesses that are allowed more than the default memory run alone, after the pool
+    heavy = [h for h in specs if h.get("mem_gb", 24) > 24]
+    normal = [h for h in specs if h not in heavy]
+
+    def report(r):
+        results.append(r)
+        sys.stderr.write("[%s] %-34s %-12s %6.1fs %s\n" % (prop, r["name"], r["status"], r["wall_s"], r["detail"][:150]))
+
     with cf.ThreadPoolExecutor(max_workers=jobs) as ex:
-        futs = [ex.submit(decide, prop, h, slot_q, a.tier) for h in specs]
+        futs = [ex.submit(decide, prop, h, slot_q, a.tier) for h in normal]
         for f in cf.as_completed(futs):
-            r = f.result()
-            results.append(r)
-            sys.stderr.write("[%s] %-34s %-12s %6.1fs %s\n" % (prop, r["name"], r["status"], r["wall_s"], r["detail"][:150]))
+            report(f.result())
+    for h in heavy:
+        report(decide(prop, h, slot_q, a.tier))
     results.sort(key=lambda r: r["name"])
     wall = time.time() - t0
 
@@ -311,6 +319,24 @@ def main(argv):
     for x in foreign:
         print("NOTE property=%s obligation of another property failed in a shared harness (reported by that property's check): %s" % (prop, x))
 
+    aux = {}
+    if prop == "C17":
+        # auxiliary (not deciding): sources of nondeterminism other than the RNG parameter
+        pats = [r"\bstatic\s+mut\b", r"thread_local!", r"Instant::now", r"SystemTime", r"\bHashMap\b", r"\bHashSet\b", r"RandomState", r"std::env", r"\bstatic\s+\w+\s*:.*(Atomic|Mutex|Cell)"]
+        hits = []
+        srcdir = os.path.join(REPO, "src")
+        for root, _d, files in os.walk(srcdir):
+            for fn in files:
+                if not fn.endswith(".rs") or fn == "testing.rs":
+                    continue
+                text = open(os.path.join(root, fn), errors="replace").read()
+                text = text.split("#[cfg(test)]\nmod tests")[0]
+                for pat in pats:
+                    for m in re.finditer(pat, text):
+                        hits.append("%s: %s" % (os.path.relpath(os.path.join(root, fn), REPO), m.group(0)))
+        aux["nondeterminism_scan"] = {"patterns": pats, "hits": hits}
+        for h in hits:
+            print("NOTE property=C17 structural scan: possible source of nondeterminism outside the RNG parameter: %s" % h)
     samples = [summarize(r) for r in results]
     evaluations = sum(s["queries"] for s in samples)
     distinct = len(set(d for s in samples if s["status"] in ("PASS", "FAIL") for d in s["obligation_assertions"] + s["covers_satisfied"]))
@@ -336,6 +362,7 @@ def main(argv):
             "inconclusive": inconclusive,
             "undecided_resource_exhaustion": undecided,
             "other_property_failures_seen": foreign,
+            "auxiliary": aux,
         },
         "assumptions": P.get("assumptions", []) + table.COMMON_ASSUMPTIONS,
         "wall_s": round(wall, 2),
